@@ -31,12 +31,13 @@ class V:
 
 
 class Ctx:
-    def __init__(self, world, B, frames=(), side=None, root=None):
+    def __init__(self, world, B, frames=(), side=None, root=None, nosub=False):
         self.world = world
         self.B = B
         self.frames = tuple(frames)
         self.d = len(self.frames)
         self.side = side
+        self.nosub = nosub  # True while the image of a substituted terminal is evaluated
         self.root = root or self
         self.memo = {}
         self.kids = {}
@@ -45,13 +46,14 @@ class Ctx:
             self.keep = []
             self.strict_struct = True
 
-    def child(self, frames=None, side=Ellipsis):
+    def child(self, frames=None, side=Ellipsis, nosub=None):
         frames = self.frames if frames is None else tuple(frames)
         side = self.side if side is Ellipsis else side
-        key = (frames, side)
+        nosub = self.nosub if nosub is None else nosub
+        key = (frames, side, nosub)
         c = self.root.kids.get(key)
         if c is None:
-            c = self.root.kids[key] = Ctx(self.world, self.B, frames, side, self.root)
+            c = self.root.kids[key] = Ctx(self.world, self.B, frames, side, self.root, nosub)
         return c
 
     def push(self, frame):
@@ -138,8 +140,12 @@ def evaluate(e, ctx):
     r = ctx.memo.get(key)
     if r is not None:
         return r
-    h = _dispatch(type(e))
-    r = h(e, ctx)
+    sub = getattr(ctx.world, "subst", None)
+    if sub and not ctx.nosub and e._ufl_is_terminal_ and type(e).__name__ in ("Coefficient", "Argument", "Constant") and e in sub:
+        r = _substituted(e, sub[e], ctx)
+    else:
+        h = _dispatch(type(e))
+        r = h(e, ctx)
     r.arr = J.fix(r.arr)
     if not isinstance(r.arr, np.ndarray):
         r.arr = np.asarray(r.arr, dtype=complex) if ctx.B.name == "complex128" else ctx.B.asarray(r.arr)
@@ -165,6 +171,33 @@ def evaluate(e, ctx):
     ctx.memo[key] = r
     ctx.root.keep.append(e)
     return r
+
+
+def _substituted(e, spec, ctx):
+    """Value of terminal e under world.subst: one simultaneous (non-recursive) substitution.
+
+    spec = ("expr", image) or ("lin", [(scalar, terminal), ...]); the image is evaluated in the same
+    frames and on the same side (so derivatives and restrictions follow) with substitution off."""
+    c2 = ctx.child(nosub=True)
+    B, d = ctx.B, ctx.d
+    want = tuple(e.ufl_shape)
+    if spec[0] == "expr":
+        v = evaluate(spec[1], c2)
+        if tuple(v.arr.shape[d : d + v.rank]) != want:
+            raise StructureMismatch("substituted image has another shape than the terminal")
+        return V(v.arr, v.rank, v.fi)
+    if spec[0] == "lin":
+        tot = None
+        for a, t in spec[1]:
+            v = evaluate(t, c2)
+            if v.fi or tuple(v.arr.shape[d : d + v.rank]) != want:
+                raise StructureMismatch("linear combination of terminals with another shape")
+            term = v.arr * B.scalar(a)
+            tot = term if tot is None else tot + term
+        if tot is None:
+            tot = B.zeros((2,) * d + want)
+        return V(tot, len(want), ())
+    raise Unsupported("unknown substitution spec")
 
 
 _HANDLERS = {}
